@@ -95,3 +95,616 @@ mod verif_c11 {
   }
   // VERIF-END verif_c11
 }
+
+#[cfg(all(kani, verif_c12))]
+mod verif_c12 {
+  use super::*;
+  use crate::vassert;
+  use crate::verif::vstub;
+
+  /// Reference controller, written from the MBC1/MBC3 register protocol.
+  #[derive(Clone, Copy)]
+  struct RefMbc { kind: u8, bank1: u8, bank2: u8, mode: bool, ram_sel: u8, ram_known: bool }
+  impl RefMbc {
+    fn new(kind: u8) -> Self { RefMbc { kind, bank1: 1, bank2: 0, mode: false, ram_sel: 0, ram_known: true } }
+    fn write(&mut self, addr: u16, v: u8) {
+      match self.kind {
+        1 => {
+          if addr < 0x2000 { /* RAM enable: not compared */ }
+          else if addr < 0x4000 { self.bank1 = v & 0x1f; }
+          else if addr < 0x6000 { self.bank2 = v & 3; }
+          else { self.mode = v & 1 == 1; }
+        }
+        3 => {
+          if addr < 0x2000 { }
+          else if addr < 0x4000 { self.bank1 = v & 0x7f; }
+          else if addr < 0x6000 {
+            if v < 4 { self.ram_sel = v; self.ram_known = true; }
+            else { self.ram_known = false; } // RTC register select / undefined values: not part of the statement
+          }
+          else { }
+        }
+        _ => {}
+      }
+    }
+    /// (bank, alternative bank also accepted) before reduction
+    fn rom_bank(&self) -> (usize, usize) {
+      match self.kind {
+        1 => {
+          let low = if self.bank1 == 0 { 1 } else { self.bank1 as usize };
+          let full = ((self.bank2 as usize) << 5) | low;
+          // Mode 1 with the upper bits set: documentation differs on whether they
+          // still reach 0x4000-0x7fff; both readings are accepted there.
+          if self.mode { (full, low) } else { (full, full) }
+        }
+        3 => { let b = if self.bank1 == 0 { 1 } else { self.bank1 as usize }; (b, b) }
+        _ => (1, 1),
+      }
+    }
+    fn ram_bank(&self) -> Option<usize> {
+      match self.kind {
+        1 => Some(if self.mode { self.bank2 as usize } else { 0 }),
+        3 => if self.ram_known { Some(self.ram_sel as usize) } else { None },
+        _ => Some(0),
+      }
+    }
+  }
+
+  fn mapping(kind: u8, nwrites: usize) {
+    let cart_type = match kind { 0 => 0x00u8, 1 => { let s: u8 = kani::any(); kani::assume(s >= 1 && s <= 3); s }, _ => { let s: u8 = kani::any(); kani::assume(s >= 0x11 && s <= 0x13); s } };
+    let rom_code: u8 = kani::any();
+    let ram_code: u8 = kani::any();
+    let h = Header::verif_with(cart_type, rom_code, ram_code);
+    let mut m = verif_areas(&h);
+    let p = &mut m as *mut MemoryAreas;
+    let rom_banks = crate::cart::verif_ref_rom_banks(rom_code);
+    let ram_bytes = crate::cart::verif_ref_ram_bytes(ram_code);
+    vassert!(m.rom.len() == rom_banks * 0x4000, "C12.setup.rom_size");
+    vassert!(m.cart_ram.len() == ram_bytes, "C12.setup.ram_size");
+    let mut r = RefMbc::new(if kind == 2 { 3 } else { kind });
+    let mut i = 0;
+    while i < nwrites {
+      let a: u16 = kani::any();
+      let v: u8 = kani::any();
+      kani::assume(a < 0x8000);
+      memory_write_byte(p, a, v);
+      r.write(a, v);
+      i += 1;
+    }
+    // probe: poke arbitrary bytes at the cells the reference selects (background is zero)
+    let off: usize = kani::any();
+    kani::assume(off < 0x4000);
+    let (b1, b2) = r.rom_bank();
+    let i1 = (b1 % rom_banks) * 0x4000 + off;
+    let i2 = (b2 % rom_banks) * 0x4000 + off;
+    m.rom[off] = kani::any();
+    m.rom[i2] = kani::any();
+    m.rom[i1] = kani::any();
+    let (e1, e2, e0) = (m.rom[i1], m.rom[i2], m.rom[off]);
+    let got_hi = memory_read_byte(p, 0x4000 + off as u16);
+    vassert!(got_hi == e1 || got_hi == e2, "C12.rom.switchable_bank");
+    let fetch_hi = get_executable_memory_slice(0x4000 + off, p)[0];
+    vassert!(fetch_hi == got_hi, "C12.rom.fetch_view_switchable");
+    let got_lo = memory_read_byte(p, off as u16);
+    vassert!(got_lo == e0, "C12.rom.bank0_fixed");
+    let fetch_lo = get_executable_memory_slice(off, p)[0];
+    vassert!(fetch_lo == got_lo, "C12.rom.fetch_view_bank0");
+    // cartridge RAM
+    let roff = off & 0x1fff;
+    if let Some(rb) = r.ram_bank() {
+      let nb = if ram_bytes / 0x2000 == 0 { 1 } else { ram_bytes / 0x2000 };
+      let idx = (rb % nb) * 0x2000 + roff;
+      if idx < ram_bytes {
+        let want: u8 = kani::any();
+        m.cart_ram[idx] = want;
+        let got = memory_read_byte(p, 0xa000 + roff as u16);
+        vassert!(got == want, "C12.ram.bank");
+        // a write lands in the same cell
+        let nv: u8 = kani::any();
+        memory_write_byte(p, 0xa000 + roff as u16, nv);
+        vassert!(m.cart_ram[idx] == nv, "C12.ram.write_bank");
+      }
+    }
+    kani::cover!(b1 % rom_banks > 1, "reached");
+    core::mem::forget(m);
+  }
+
+  macro_rules! c12 {
+    ($name:ident, $kind:expr, $n:expr, $unwind:expr) => {
+      #[kani::proof]
+      #[kani::unwind($unwind)]
+      #[kani::stub(crate::system::get_rom_buffer, vstub::stub_get_rom_buffer)]
+      #[kani::stub(crate::mem::create_buffer, vstub::stub_create_buffer)]
+      #[kani::stub(crate::devices::video::lcd::LCD::new, vstub::stub_lcd_new)]
+      #[kani::stub(<std::io::Stdout as std::io::Write>::write, vstub::stub_stdout_write)]
+      #[kani::stub(<std::io::Stdout as std::io::Write>::flush, vstub::stub_stdout_flush)]
+      fn $name() { mapping($kind, $n); }
+    };
+  }
+  c12!(c12_mbc1_w3, 1, 3, 5);
+  c12!(c12_mbc3_w3, 2, 3, 5);
+  #[cfg(verif_thorough)]
+  c12!(c12_mbc1_w5, 1, 5, 7);
+  #[cfg(verif_thorough)]
+  c12!(c12_mbc3_w5, 2, 5, 7);
+
+  /// ROM-only cartridges ignore every write below 0x8000.
+  #[kani::proof]
+  #[kani::unwind(5)]
+  #[kani::stub(crate::system::get_rom_buffer, vstub::stub_get_rom_buffer)]
+  #[kani::stub(crate::mem::create_buffer, vstub::stub_create_buffer)]
+  #[kani::stub(crate::devices::video::lcd::LCD::new, vstub::stub_lcd_new)]
+  #[kani::stub(<std::io::Stdout as std::io::Write>::write, vstub::stub_stdout_write)]
+  #[kani::stub(<std::io::Stdout as std::io::Write>::flush, vstub::stub_stdout_flush)]
+  fn c12_romonly_w3() {
+    let rom_code: u8 = kani::any();
+    let h = Header::verif_with(0, rom_code, kani::any());
+    let mut m = verif_areas(&h);
+    let p = &mut m as *mut MemoryAreas;
+    let rom_banks = crate::cart::verif_ref_rom_banks(rom_code);
+    let mut i = 0;
+    while i < 3 {
+      let a: u16 = kani::any();
+      kani::assume(a < 0x8000);
+      memory_write_byte(p, a, kani::any());
+      i += 1;
+    }
+    let off: usize = kani::any();
+    kani::assume(off < 0x4000);
+    m.rom[off] = kani::any();
+    m.rom[(1 % rom_banks) * 0x4000 + off] = kani::any();
+    vassert!(memory_read_byte(p, 0x4000 + off as u16) == m.rom[(1 % rom_banks) * 0x4000 + off], "C12.romonly.bank1");
+    vassert!(memory_read_byte(p, off as u16) == m.rom[off], "C12.romonly.bank0");
+    vassert!(get_executable_memory_slice(0x4000 + off, p)[0] == m.rom[(1 % rom_banks) * 0x4000 + off], "C12.romonly.fetch");
+    kani::cover!(true, "reached");
+    core::mem::forget(m);
+  }
+
+  #[kani::proof]
+  #[kani::unwind(5)]
+  #[kani::stub(crate::system::get_rom_buffer, vstub::stub_get_rom_buffer)]
+  #[kani::stub(crate::mem::create_buffer, vstub::stub_create_buffer)]
+  #[kani::stub(crate::devices::video::lcd::LCD::new, vstub::stub_lcd_new)]
+  fn c12_witness_must_fail() {
+    let h = Header::verif_with(0x01, kani::any(), kani::any());
+    let mut m = verif_areas(&h);
+    let p = &mut m as *mut MemoryAreas;
+    memory_write_byte(p, 0x2000, kani::any());
+    let _ = memory_read_byte(p, 0x4000);
+    assert!(false, "C12.witness");
+  }
+  // VERIF-END verif_c12
+}
+
+#[cfg(all(kani, verif_c10))]
+mod verif_c10 {
+  use super::*;
+  use crate::vassert;
+  use crate::verif::vstub;
+
+  #[derive(Clone, Copy, PartialEq, Eq)]
+  enum Reg { Rom, Vram, CartRam, Wram, Echo, Oam, Unused, Io, Hram, Ie }
+  /// Documented DMG memory map.
+  fn region(a: u16) -> Reg {
+    match a {
+      0x0000..=0x7fff => Reg::Rom,
+      0x8000..=0x9fff => Reg::Vram,
+      0xa000..=0xbfff => Reg::CartRam,
+      0xc000..=0xdfff => Reg::Wram,
+      0xe000..=0xfdff => Reg::Echo,
+      0xfe00..=0xfe9f => Reg::Oam,
+      0xfea0..=0xfeff => Reg::Unused,
+      0xff00..=0xff7f => Reg::Io,
+      0xff80..=0xfffe => Reg::Hram,
+      _ => Reg::Ie,
+    }
+  }
+  /// I/O registers this emulator implements (everything else in 0xff00-0xff7f is unassigned).
+  fn io_assigned(a: u16) -> bool {
+    matches!(a & 0xff, 0x00 | 0x01 | 0x02 | 0x04 | 0x05 | 0x06 | 0x07 | 0x0f | 0x40..=0x4b) // 0x46 = DMA register
+  }
+
+  fn build(kind: u8) -> (MemoryAreas, usize) {
+    let cart_type = match kind { 0 => 0x00u8, 1 => { let s: u8 = kani::any(); kani::assume(s >= 1 && s <= 3); s }, _ => { let s: u8 = kani::any(); kani::assume(s >= 0x11 && s <= 0x13); s } };
+    let ram_code: u8 = kani::any();
+    let h = Header::verif_with(cart_type, kani::any(), ram_code);
+    let mut m = verif_areas(&h);
+    let p = &mut m as *mut MemoryAreas;
+    // arbitrary banking registers
+    memory_write_byte(p, 0x0000, kani::any());
+    memory_write_byte(p, 0x2000, kani::any());
+    memory_write_byte(p, 0x4000, kani::any());
+    memory_write_byte(p, 0x6000, kani::any());
+    (m, crate::cart::verif_ref_ram_bytes(ram_code))
+  }
+
+  /// Write to a RAM-like target: stored independently.
+  fn frame_ram(kind: u8) {
+    let (mut m, ram_bytes) = build(kind);
+    let p = &mut m as *mut MemoryAreas;
+    let a1: u16 = kani::any();
+    let a2: u16 = kani::any();
+    let v: u8 = kani::any();
+    let r1 = region(a1);
+    kani::assume(matches!(r1, Reg::Vram | Reg::CartRam | Reg::Wram | Reg::Oam | Reg::Hram | Reg::Ie));
+    // cartridge RAM only where RAM is present for every bank (beyond it the bus is open: see C11/C12)
+    if r1 == Reg::CartRam { kani::assume(ram_bytes >= 0x2000); }
+    let before = memory_read_byte(p, a2);
+    memory_write_byte(p, a1, v);
+    let after = memory_read_byte(p, a2);
+    if a2 == a1 {
+      if r1 == Reg::Ie { vassert!(after & 0x1f == v & 0x1f, "C10.ram.readback_ie"); }
+      else { vassert!(after == v, "C10.ram.readback"); }
+    } else {
+      vassert!(after == before, "C10.ram.frame");
+    }
+    kani::cover!(a2 != a1 && region(a2) == Reg::Io, "reached");
+    core::mem::forget(m);
+  }
+
+  /// Unmapped targets ignore writes; unmapped addresses read as a constant.
+  fn frame_unmapped(kind: u8) {
+    let (mut m, _ram_bytes) = build(kind);
+    let p = &mut m as *mut MemoryAreas;
+    let a1: u16 = kani::any();
+    let a2: u16 = kani::any();
+    let v: u8 = kani::any();
+    let unmapped1 = matches!(region(a1), Reg::Echo | Reg::Unused) || (region(a1) == Reg::Io && !io_assigned(a1));
+    let unmapped2 = matches!(region(a2), Reg::Echo | Reg::Unused) || (region(a2) == Reg::Io && !io_assigned(a2));
+    kani::assume(unmapped1 || unmapped2);
+    let before = memory_read_byte(p, a2);
+    memory_write_byte(p, a1, v);
+    let after = memory_read_byte(p, a2);
+    if unmapped1 { vassert!(after == before, "C10.unmapped.write_ignored"); }
+    if unmapped2 {
+      vassert!(after == before, "C10.unmapped.read_constant");
+      let c = if region(a2) == Reg::Io { 0xff } else { 0x00 };
+      vassert!(after == c || after == 0xff || after == 0, "C10.unmapped.read_value");
+    }
+    kani::cover!(unmapped1 && !unmapped2, "reached");
+    core::mem::forget(m);
+  }
+
+  /// ROM never changes through the bus; a write below 0x8000 changes nothing
+  /// outside the two banked windows.
+  fn frame_rom(kind: u8) {
+    let (mut m, _ram_bytes) = build(kind);
+    let p = &mut m as *mut MemoryAreas;
+    let a1: u16 = kani::any();
+    let a2: u16 = kani::any();
+    let v: u8 = kani::any();
+    kani::assume(a1 < 0x8000);
+    let idx: usize = kani::any();
+    kani::assume(idx < m.rom.len());
+    let content: u8 = kani::any();
+    m.rom[idx] = content;
+    let before = memory_read_byte(p, a2);
+    memory_write_byte(p, a1, v);
+    let after = memory_read_byte(p, a2);
+    vassert!(m.rom[idx] == content, "C10.rom.contents_unchanged");
+    let banked = (a2 >= 0x4000 && a2 < 0x8000) || region(a2) == Reg::CartRam;
+    if !banked { vassert!(after == before, "C10.rom.write_changes_nothing_else"); }
+    kani::cover!(a2 < 0x4000, "reached");
+    core::mem::forget(m);
+  }
+
+  /// I/O registers return their defined writable bits; an I/O write changes no memory cell.
+  fn io_readback() {
+    let (mut m, _ram_bytes) = build(0);
+    let p = &mut m as *mut MemoryAreas;
+    let r: u8 = kani::any();
+    let v: u8 = kani::any();
+    kani::assume(r < 0x80);
+    let a1 = 0xff00u16 | r as u16;
+    let a2: u16 = kani::any();
+    kani::assume(region(a2) != Reg::Io);
+    let before2 = memory_read_byte(p, a2);
+    let before1 = memory_read_byte(p, a1);
+    memory_write_byte(p, a1, v);
+    let got = memory_read_byte(p, a1);
+    let mask: u8 = match r {
+      0x00 => 0x30,
+      0x05 | 0x06 => 0xff,
+      0x07 => 0x07,
+      0x0f => 0x1f,
+      0x40 | 0x42 | 0x43 | 0x45 | 0x47 | 0x48 | 0x49 | 0x4a | 0x4b => 0xff,
+      0x41 => 0x78,
+      _ => 0x00,
+    };
+    vassert!(got & mask == v & mask, "C10.io.readback_mask");
+    if r == 0x04 { vassert!(got == 0, "C10.io.div_reads_zero_after_write"); }
+    if r == 0x44 { vassert!(got == before1, "C10.io.ly_read_only"); }
+    if r == 0x0f { vassert!(got & 0xe0 == 0xe0, "C10.io.if_high_bits"); }
+    let after2 = memory_read_byte(p, a2);
+    // 0xff46 arms a transfer but copies nothing until time passes (C16)
+    vassert!(after2 == before2, "C10.io.write_changes_no_memory");
+    kani::cover!(mask == 0x78, "reached");
+    core::mem::forget(m);
+  }
+
+  /// Instruction fetch sees the bytes data reads see (work RAM, high RAM; ROM is in C12).
+  fn fetch_view() {
+    let (mut m, _ram_bytes) = build(0);
+    let p = &mut m as *mut MemoryAreas;
+    let a: u16 = kani::any();
+    kani::assume(matches!(region(a), Reg::Wram | Reg::Hram));
+    // arbitrary contents at the three cells an instruction can span
+    memory_write_byte(p, a, kani::any());
+    let s = get_executable_memory_slice(a as usize, p);
+    vassert!(s.len() >= 1, "C10.fetch.nonempty");
+    vassert!(s[0] == memory_read_byte(p, a), "C10.fetch.first_byte");
+    let a1 = a.wrapping_add(1);
+    if s.len() >= 2 && region(a1) == region(a) && (a1 & 0xf000) == (a & 0xf000) {
+      memory_write_byte(p, a1, kani::any());
+      let s = get_executable_memory_slice(a as usize, p);
+      vassert!(s[1] == memory_read_byte(p, a1), "C10.fetch.second_byte");
+    }
+    // the slice ends exactly at the end of its region / bank
+    let end = match a { 0xc000..=0xcfff => 0xd000usize, 0xd000..=0xdfff => 0xe000, _ => 0xffff };
+    vassert!(s.len() == end - a as usize, "C10.fetch.slice_extent");
+    kani::cover!(region(a) == Reg::Hram, "reached");
+    core::mem::forget(m);
+  }
+
+  macro_rules! c10 {
+    ($name:ident, $body:expr) => {
+      #[kani::proof]
+      #[kani::unwind(6)]
+      #[kani::stub(crate::system::get_rom_buffer, vstub::stub_get_rom_buffer)]
+      #[kani::stub(crate::mem::create_buffer, vstub::stub_create_buffer)]
+      #[kani::stub(crate::devices::video::lcd::LCD::new, vstub::stub_lcd_new)]
+      #[kani::stub(<std::io::Stdout as std::io::Write>::write, vstub::stub_stdout_write)]
+      #[kani::stub(<std::io::Stdout as std::io::Write>::flush, vstub::stub_stdout_flush)]
+      fn $name() { $body; }
+    };
+  }
+  c10!(c10_frame_ram_romonly, frame_ram(0));
+  c10!(c10_frame_ram_mbc1, frame_ram(1));
+  c10!(c10_frame_ram_mbc3, frame_ram(2));
+  c10!(c10_unmapped_mbc1, frame_unmapped(1));
+  c10!(c10_rom_romonly, frame_rom(0));
+  c10!(c10_rom_mbc1, frame_rom(1));
+  c10!(c10_rom_mbc3, frame_rom(2));
+  c10!(c10_io_readback, io_readback());
+  c10!(c10_fetch_view, fetch_view());
+  c10!(c10_witness_must_fail, { let (mut m, _r) = build(1); let p = &mut m as *mut MemoryAreas; memory_write_byte(p, kani::any(), kani::any()); let _ = memory_read_byte(p, kani::any()); assert!(false, "C10.witness"); });
+  // VERIF-END verif_c10
+}
+
+#[cfg(all(kani, verif_c16))]
+mod verif_c16 {
+  use super::*;
+  use crate::vassert;
+  use crate::verif::vstub;
+
+  // ---- recording bus (solver side only) ----
+  const LOG: usize = 20;
+  static mut EV_KIND: [u8; LOG] = [0; LOG];   // 1 = read, 2 = write
+  static mut EV_ADDR: [u16; LOG] = [0; LOG];
+  static mut EV_VAL: [u8; LOG] = [0; LOG];
+  static mut NEV: usize = 0;
+  extern "sysv64" fn rec_read(_m: *const MemoryAreas, addr: u16) -> u8 {
+    let v: u8 = kani::any();
+    unsafe { if NEV < LOG { EV_KIND[NEV] = 1; EV_ADDR[NEV] = addr; EV_VAL[NEV] = v; } NEV += 1; }
+    v
+  }
+  extern "sysv64" fn rec_write(_m: *mut MemoryAreas, addr: u16, value: u8) {
+    unsafe { if NEV < LOG { EV_KIND[NEV] = 2; EV_ADDR[NEV] = addr; EV_VAL[NEV] = value; } NEV += 1; }
+  }
+  fn io_noop(_io: &mut crate::devices::io::IO, _c: ClockCycles, _v: &Box<[u8]>, _o: &Box<[u8]>) {}
+
+  fn any_dma() -> Option<(usize, u8)> {
+    if kani::any() { None } else {
+      let page: u8 = kani::any();
+      let off: u8 = kani::any();
+      kani::assume(off < 0xa0);
+      Some(((page as usize) << 8, off))
+    }
+  }
+
+  /// Writing XX to 0xff46 (re)starts a transfer from XX00 at offset 0, whatever was in progress.
+  #[kani::proof]
+  #[kani::unwind(6)]
+  #[kani::stub(crate::system::get_rom_buffer, vstub::stub_get_rom_buffer)]
+  #[kani::stub(crate::mem::create_buffer, vstub::stub_create_buffer)]
+  #[kani::stub(crate::devices::video::lcd::LCD::new, vstub::stub_lcd_new)]
+  fn c16_arming() {
+    let h = Header::verif_with(0, 0, 0);
+    let mut m = verif_areas(&h);
+    m.verif_set_dma(any_dma());
+    let p = &mut m as *mut MemoryAreas;
+    let xx: u8 = kani::any();
+    let probe: u8 = kani::any();
+    kani::assume(probe < 0xa0);
+    let oam_before = m.oam_ram[probe as usize];
+    memory_write_byte(p, 0xff46, xx);
+    vassert!(m.verif_dma_state() == Some(((xx as usize) << 8, 0)), "C16.arm.restarts_at_offset_0");
+    vassert!(m.oam_ram[probe as usize] == oam_before, "C16.arm.copies_nothing_yet");
+    kani::cover!(true, "reached");
+    core::mem::forget(m);
+  }
+
+  /// The transaction contract: exactly min(remaining, cycles/4) read/write pairs, ascending, nothing else.
+  fn transactions(max_bytes: usize, tail_only: bool) {
+    let h = Header::verif_with(0, 0, 0);
+    let mut m = verif_areas(&h);
+    let page: u8 = kani::any();
+    let o: u8 = kani::any();
+    kani::assume(o < 0xa0);
+    let c: usize = kani::any();
+    kani::assume(c % 4 == 0);
+    if tail_only {
+      // any batch size, transfer within `max_bytes` of its end: the batch arithmetic must not lose or wrap cycles
+      kani::assume(c < (1 << 24) && (0xa0 - o as usize) <= max_bytes);
+    } else {
+      kani::assume(c / 4 <= max_bytes);
+    }
+    m.verif_set_dma(Some(((page as usize) << 8, o)));
+    unsafe { NEV = 0; }
+    m.run_clock_cycles(ClockCycles(c));
+    let remaining = 0xa0 - o as usize;
+    let n = if c / 4 < remaining { c / 4 } else { remaining };
+    let nev = unsafe { NEV };
+    vassert!(nev == 2 * n, "C16.txn.count");
+    let mut i = 0;
+    while i < n && i < max_bytes {
+      let (k1, a1, v1, k2, a2, v2) = unsafe { (EV_KIND[2 * i], EV_ADDR[2 * i], EV_VAL[2 * i], EV_KIND[2 * i + 1], EV_ADDR[2 * i + 1], EV_VAL[2 * i + 1]) };
+      vassert!(k1 == 1 && a1 == (((page as u16) << 8) | (o as u16 + i as u16)), "C16.txn.source_address");
+      vassert!(k2 == 2 && a2 == 0xfe00 + o as u16 + i as u16, "C16.txn.dest_address");
+      vassert!(v2 == v1, "C16.txn.value");
+      i += 1;
+    }
+    let done = o as usize + n;
+    if done < 0xa0 {
+      vassert!(m.verif_dma_state() == Some(((page as usize) << 8, done as u8)), "C16.txn.progress");
+    } else {
+      vassert!(m.verif_dma_state() == None, "C16.txn.completes_at_160");
+    }
+    kani::cover!(n == max_bytes, "reached");
+    core::mem::forget(m);
+  }
+
+  macro_rules! txn {
+    ($name:ident, $max:expr, $tail:expr, $unwind:expr) => {
+      #[kani::proof]
+      #[kani::unwind($unwind)]
+      #[kani::stub(crate::system::get_rom_buffer, vstub::stub_get_rom_buffer)]
+      #[kani::stub(crate::mem::create_buffer, vstub::stub_create_buffer)]
+      #[kani::stub(crate::devices::video::lcd::LCD::new, vstub::stub_lcd_new)]
+      #[kani::stub(crate::mem::memory_read_byte, rec_read)]
+      #[kani::stub(crate::mem::memory_write_byte, rec_write)]
+      #[kani::stub(crate::devices::io::IO::run_clock_cycles, io_noop)]
+      fn $name() { transactions($max, $tail); }
+    };
+  }
+  txn!(c16_txn_batch8, 8, false, 10);
+  txn!(c16_txn_tail8_any_batch, 8, true, 10);
+  #[cfg(verif_thorough)]
+  txn!(c16_txn_batch32, 18, false, 20);
+
+  /// No transfer in progress: time passes, no bus traffic.
+  #[kani::proof]
+  #[kani::unwind(4)]
+  #[kani::stub(crate::system::get_rom_buffer, vstub::stub_get_rom_buffer)]
+  #[kani::stub(crate::mem::create_buffer, vstub::stub_create_buffer)]
+  #[kani::stub(crate::devices::video::lcd::LCD::new, vstub::stub_lcd_new)]
+  #[kani::stub(crate::mem::memory_read_byte, rec_read)]
+  #[kani::stub(crate::mem::memory_write_byte, rec_write)]
+  #[kani::stub(crate::devices::io::IO::run_clock_cycles, io_noop)]
+  fn c16_idle_no_traffic() {
+    let h = Header::verif_with(0, 0, 0);
+    let mut m = verif_areas(&h);
+    let c: usize = kani::any();
+    kani::assume(c % 4 == 0 && c < (1 << 24));
+    unsafe { NEV = 0; }
+    m.run_clock_cycles(ClockCycles(c));
+    vassert!(unsafe { NEV } == 0 && m.verif_dma_state() == None, "C16.idle.no_traffic");
+    kani::cover!(true, "reached");
+    core::mem::forget(m);
+  }
+
+  /// Two batches equal one (contract is additive; queried directly on the state).
+  #[kani::proof]
+  #[kani::unwind(10)]
+  #[kani::stub(crate::system::get_rom_buffer, vstub::stub_get_rom_buffer)]
+  #[kani::stub(crate::mem::create_buffer, vstub::stub_create_buffer)]
+  #[kani::stub(crate::devices::video::lcd::LCD::new, vstub::stub_lcd_new)]
+  #[kani::stub(crate::mem::memory_read_byte, rec_read)]
+  #[kani::stub(crate::mem::memory_write_byte, rec_write)]
+  #[kani::stub(crate::devices::io::IO::run_clock_cycles, io_noop)]
+  fn c16_batch_split() {
+    let h = Header::verif_with(0, 0, 0);
+    let mut m = verif_areas(&h);
+    let page: u8 = kani::any();
+    let o: u8 = kani::any();
+    kani::assume(o < 0xa0);
+    let a: usize = kani::any();
+    let b: usize = kani::any();
+    kani::assume(a <= 8 && b <= 8 && a + b <= 8);
+    m.verif_set_dma(Some(((page as usize) << 8, o)));
+    unsafe { NEV = 0; }
+    m.run_clock_cycles(ClockCycles(4 * a));
+    m.run_clock_cycles(ClockCycles(4 * b));
+    let remaining = 0xa0 - o as usize;
+    let n = if a + b < remaining { a + b } else { remaining };
+    vassert!(unsafe { NEV } == 2 * n, "C16.split.count");
+    let mut i = 0;
+    while i < n && i < 8 {
+      let (a1, a2) = unsafe { (EV_ADDR[2 * i], EV_ADDR[2 * i + 1]) };
+      vassert!(a1 == (((page as u16) << 8) | (o as u16 + i as u16)) && a2 == 0xfe00 + o as u16 + i as u16, "C16.split.addresses");
+      i += 1;
+    }
+    let done = o as usize + n;
+    vassert!(m.verif_dma_state() == if done < 0xa0 { Some(((page as usize) << 8, done as u8)) } else { None }, "C16.split.progress");
+    kani::cover!(a > 0 && b > 0, "reached");
+    core::mem::forget(m);
+  }
+
+  /// Cross-check through the REAL bus ladder (no bus stubs; natively replayable):
+  /// a transfer from work RAM / ROM / echo area lands in OAM and nowhere else.
+  fn ladder(page: u8, max_bytes: usize) {
+    let h = Header::verif_with(0, 0, 0);
+    let mut m = verif_areas(&h);
+    let p = &mut m as *mut MemoryAreas;
+    let o: u8 = kani::any();
+    kani::assume(o < 0xa0);
+    let nb: usize = kani::any();
+    kani::assume(nb <= max_bytes);
+    // arbitrary source bytes (where the source is writable memory) and an arbitrary OAM/other probe
+    let src = ((page as u16) << 8) | o as u16;
+    memory_write_byte(p, src, kani::any());
+    memory_write_byte(p, src.wrapping_add(1), kani::any());
+    let probe: u16 = kani::any();
+    let exp0 = memory_read_byte(p, src);
+    let exp1 = memory_read_byte(p, src.wrapping_add(1));
+    let before = memory_read_byte(p, probe);
+    memory_write_byte(p, 0xff46, page);
+    m.run_clock_cycles(ClockCycles(4 * o as usize)); // reach offset o: contents of the first o bytes are not compared
+    let before_oam_probe = memory_read_byte(p, probe);
+    m.run_clock_cycles(ClockCycles(4 * nb));
+    let remaining = 0xa0 - o as usize;
+    let n = if nb < remaining { nb } else { remaining };
+    if n >= 1 { vassert!(m.oam_ram[o as usize] == exp0, "C16.ladder.byte0"); }
+    if n >= 2 { vassert!(m.oam_ram[o as usize + 1] == exp1, "C16.ladder.byte1"); }
+    let after = memory_read_byte(p, probe);
+    let in_oam = probe >= 0xfe00 && probe < 0xfea0;
+    if !in_oam && probe != 0xff46 && !(probe >= 0xff00 && probe < 0xff80) {
+      vassert!(after == before, "C16.ladder.touches_no_other_memory");
+    }
+    if in_oam && ((probe - 0xfe00) as usize >= o as usize + n) {
+      vassert!(after == before_oam_probe, "C16.ladder.oam_beyond_progress_untouched");
+    }
+    kani::cover!(n == 2, "reached");
+    core::mem::forget(m);
+  }
+  macro_rules! lad {
+    ($name:ident, $page:expr, $unwind:expr) => {
+      #[kani::proof]
+      #[kani::unwind($unwind)]
+      #[kani::stub(crate::system::get_rom_buffer, vstub::stub_get_rom_buffer)]
+      #[kani::stub(crate::mem::create_buffer, vstub::stub_create_buffer)]
+      #[kani::stub(crate::devices::video::lcd::LCD::new, vstub::stub_lcd_new)]
+      #[kani::stub(crate::devices::io::IO::run_clock_cycles, io_noop)]
+      fn $name() { ladder($page, 2); }
+    };
+  }
+  #[cfg(verif_thorough)]
+  lad!(c16_ladder_wram, 0xc1, 164);
+
+  #[kani::proof]
+  #[kani::unwind(10)]
+  #[kani::stub(crate::system::get_rom_buffer, vstub::stub_get_rom_buffer)]
+  #[kani::stub(crate::mem::create_buffer, vstub::stub_create_buffer)]
+  #[kani::stub(crate::devices::video::lcd::LCD::new, vstub::stub_lcd_new)]
+  #[kani::stub(crate::mem::memory_read_byte, rec_read)]
+  #[kani::stub(crate::mem::memory_write_byte, rec_write)]
+  #[kani::stub(crate::devices::io::IO::run_clock_cycles, io_noop)]
+  fn c16_witness_must_fail() {
+    let h = Header::verif_with(0, 0, 0);
+    let mut m = verif_areas(&h);
+    m.verif_set_dma(Some((0xc100, 0x9e)));
+    m.run_clock_cycles(ClockCycles(8));
+    assert!(false, "C16.witness");
+  }
+  // VERIF-END verif_c16
+}
